@@ -418,9 +418,14 @@ def detect_and_validate(histories_events, nfiles, invariants):
     else:
         chosen = "any"
         r = validate_trace(lines, nfiles, "header_first", True, invariants)
-        if not r["accepted"]:
-            raise ToolError("the recorded histories are not even well-formed for TraceBuild (protocol any): %s" % r["reject"])
     viol = []
+    if chosen == "any" and not r["accepted"]:
+        # no protocol, not even the generic one, explains what the real code did at this step: the
+        # observation itself contradicts the build contract (e.g. a build that returned Ok over an edited
+        # grammar without touching a stale output) -- a violation, reported at the rejected line
+        rej = r["reject"] or {}
+        k = max(0, min(int(rej.get("line", 1)), len(lines)) - 1)
+        viol.append(("NotExplainedByModel", where[k][0], where[k][1], lines[k]))
     for inv, l in r["violations"]:
         # l is the line being consumed when the violated state was reached
         k = min(l, len(lines)) - 1
